@@ -304,7 +304,7 @@ func addSeed(dec string, s seedEnc) {
 }
 
 func roundTrips(s *verifh.Sink) {
-	n := verifh.Pick(6000, 200000)
+	n := verifh.Pick(6000, 100000)
 	for i := 0; i < n; i++ {
 		r := verifh.Rand("c11rt", i)
 		// 1. int64 lists, all modes
@@ -888,7 +888,7 @@ func hostile(s *verifh.Sink, t *testing.T) {
 		}
 	}
 
-	n := verifh.Pick(12000, 400000)
+	n := verifh.Pick(12000, 200000)
 	decoders := []string{"int64list", "varint64", "varuint64", "uint64block", "bytesblock", "dictionary", "dictvalues", "vararray", "lenprefixed", "zstd", "tagvalues", "bytesblocktail"}
 	seedOf := map[string]string{"dictvalues": "dictionary", "bytesblocktail": "bytesblock"}
 	for i := 0; i < n; i++ {
